@@ -6,6 +6,7 @@ converting two self-contained blocks joined by a paragraph break or a space diff
 separate conversions.
 """
 from ..shard import rng_for
+from ..util import converter
 from ..gen import doc as D
 from ..model import l2t as L
 from ..rec import Recorder
@@ -150,7 +151,7 @@ def check_case(case, rec):
         rec.monitor('model_comparisons')
         rec.hist('options', '%s/%s/kb%d' % (opts['strict_latex_spaces'], opts['math_mode'], int(opts['keep_braced_groups'])))
         try:
-            got = LatexNodes2Text(**opts).latex_to_text(src, tolerant_parsing=False)
+            got = converter(opts, src, rec).latex_to_text(src, tolerant_parsing=False)
         except Exception as e:
             rec.violation(dict(case, source=src), 'latex_to_text raised %s: %s | source %r options %r'
                           % (type(e).__name__, str(e)[:150], src, opts), mech='raises')
@@ -160,7 +161,7 @@ def check_case(case, rec):
                           % (got, want, src, opts), mech='model-diff')
     else:
         a, b, joiner, opts = case['a'], case['b'], case['joiner'], case['opts']
-        l2t = lambda s: LatexNodes2Text(**opts).latex_to_text(s, tolerant_parsing=False)
+        l2t = lambda s: converter(opts, s, rec).latex_to_text(s, tolerant_parsing=False)
         try:
             whole = l2t(a + joiner + b)
             # a paragraph break renders as two newlines whatever blank material it spans
